@@ -1122,6 +1122,7 @@ func (fr *Frame) atCallChecks(ci ssa.CallInstruction, c *ssa.CallCommon) {
 		if !strings.HasSuffix(name, ac.Kind) {
 			continue
 		}
+		ac.Matched = true
 		env := fr.env(fr.cur)
 		env.where = ac.Where()
 		// the loop this call sits in (for name resolution of loop-carried variables)
